@@ -57,7 +57,7 @@ func (s *Store) validateCommand(req *pb.RaftCmdRequest) (*peer.Peer, manifest.Re
 // region. When the store is not leader or the request header is invalid the
 // returned response includes an appropriate RegionError.
 func (s *Store) ProposeCommand(req *pb.RaftCmdRequest) (*pb.RaftCmdResponse, error) {
-	peer, _, resp, err := s.validateCommand(req)
+	peer, meta, resp, err := s.validateCommand(req)
 	if err != nil {
 		return nil, err
 	}
@@ -89,6 +89,7 @@ func (s *Store) ProposeCommand(req *pb.RaftCmdRequest) (*pb.RaftCmdResponse, err
 		if result.resp == nil {
 			return &pb.RaftCmdResponse{Header: req.Header}, nil
 		}
+		trimScanResponse(meta, req, result.resp)
 		return result.resp, nil
 	case <-timer.C:
 		s.command.removeProposal(id)
